@@ -583,7 +583,39 @@ def o_history(case):
         sg.judge(model, tx, "step %d %r (history %r)" % (step, op, case["ops"][:step + 1]), labels, fresh=fresh)
         if not _same_state(tx, model):
             _bad("tamper:validation-modifies-transaction", "validating changed the long-lived transaction at step %d" % step)
+    _probe_other_objects(T, tx, labels)
     return labels
+
+
+def _probe_other_objects(T, tx, labels):
+    """objects made from the same bytes: one that is told the spent outputs by growing its (initially empty) unspents list
+    in place must agree with the long-lived object; one that is never told anything must report every input invalid -
+    whatever other objects in the process have been told"""
+    import io
+    if any(u is None for u in tx.unspents) or len(tx.unspents) != len(tx.txs_in) or tx.is_coinbase():
+        return
+    raw = tx.as_bin()
+    told = T.parse(io.BytesIO(raw))
+    told.unspents.extend(T.TxOut(u.coin_value, u.script) for u in tx.unspents)
+    try:
+        a = [told.is_solution_ok(i) for i in range(len(told.txs_in))]
+        b = [tx.is_solution_ok(i) for i in range(len(tx.txs_in))]
+        if a != b:
+            _bad("tamper:fresh-object-disagrees", "an object parsed from the same bytes and told the same spent outputs (unspents list "
+                 "grown in place) reports %r, the long-lived object %r" % (a, b))
+        for how, other in (("Tx.parse", T.parse(io.BytesIO(raw))),
+                           ("constructor", T(tx.version, [T.TxIn(i.previous_hash, i.previous_index, i.script, i.sequence) for i in tx.txs_in],
+                                             [T.TxOut(o.coin_value, o.script) for o in tx.txs_out], tx.lock_time))):
+            if how == "constructor":
+                for src, dst in zip(tx.txs_in, other.txs_in):
+                    dst.witness = list(src.witness)
+            got = [other.is_solution_ok(i) for i in range(len(other.txs_in))]
+            if any(got) or other.bad_solution_count() != len(other.txs_in):
+                _bad("tamper:unknown-spent-output-reported-valid", "an object made by %s from the same bytes, never told any spent output, "
+                     "reports is_solution_ok=%r bad_solution_count=%d" % (how, got, other.bad_solution_count()))
+        labels.append("other-objects-probed")
+    finally:
+        del told.unspents[:]
 
 
 def nt_history(case, labels):
